@@ -316,7 +316,12 @@ class Gen:
         n = rng.randrange(3, 40)
         helper_locals = rng.randrange(0, 3); helper_arity = rng.randrange(0, 3)
         def push_int():
-            nonlocal body; body += a.ins('PUSH_I64', self.const_int()); st.append('i')
+            nonlocal body
+            if rng.random() < 0.12:      # an enum value wherever an int is expected (arithmetic, MOD, NEG, array index coerce it)
+                body += a.ins('ENUM_VAL', 0, rng.choice([0, 1, 2, 3, 5, 65535]))
+            else:
+                body += a.ins('PUSH_I64', self.const_int())
+            st.append('i')
         def push_str():
             nonlocal body; body += a.ins('PUSH_STR', rng.choice([1, 2, 3, 4, 5, 6, rng.randrange(0, 12)])); st.append('s')
         def push_arr():
